@@ -44,6 +44,7 @@ type gen struct {
 	depth   int
 	path    []string          // field path inside the message being built
 	hasStr  bool              // the message carries a string or byte string somewhere
+	topNums []int             // field numbers of the top-level fields of the message being built
 }
 
 func (g *gen) imp(path string) string {
@@ -329,9 +330,26 @@ func (g *gen) structLit(gt, pt types.Type) (string, string) {
 			return "nil", "nil"
 		}
 		seen++
+		top := len(g.path) == 2
 		g.path = append(g.path, gs.Field(i).Name())
 		a, b := g.value(gs.Field(i).Type(), f.Type())
 		g.path = g.path[:len(g.path)-1]
+		if top && g.skip == "" {
+			// a top-level field that has a default (empty) value which neither family writes: on the "tail" paths
+			// every such field above a chosen field number is left empty, so that each field in turn is the last
+			// one on the wire (a decoder's end-of-buffer checks are per field)
+			zeroable := false
+			switch u := gs.Field(i).Type().Underlying().(type) {
+			case *types.Basic, *types.Slice, *types.Pointer, *types.Map:
+				zeroable = true
+				_ = u
+			}
+			if zeroable {
+				a = fmt.Sprintf("c20If(tail == 0 || %d <= tail, %s)", n, a)
+				b = fmt.Sprintf("c20If(tail == 0 || %d <= tail, %s)", n, b)
+			}
+			g.topNums = append(g.topNums, n)
+		}
 		ga = append(ga, gs.Field(i).Name()+": "+a)
 		pa = append(pa, f.Name()+": "+b)
 	}
@@ -406,7 +424,7 @@ func main() {
 				missing = append(missing, pr.alias+"."+name)
 				continue
 			}
-			g.decls, g.skip, g.n, g.depth, g.path, g.leaves, g.hasStr = nil, "", 0, 0, []string{pr.alias, name}, 0, false
+			g.decls, g.skip, g.n, g.depth, g.path, g.leaves, g.hasStr, g.topNums = nil, "", 0, 0, []string{pr.alias, name}, 0, false, nil
 			ga, pa := g.structLit(gobj.Type(), named)
 			if g.skip != "" {
 				skipped = append(skipped, fmt.Sprintf("%s.%s: %s", pr.alias, name, g.skip))
@@ -419,12 +437,27 @@ func main() {
 			if g.hasStr {
 				nsel++
 			}
+			// tail paths: one per top-level field number except the largest
+			sort.Ints(g.topNums)
+			var tails []string
+			for k := 0; k+1 < len(g.topNums); k++ {
+				tails = append(tails, strconv.Itoa(g.topNums[k]))
+			}
+			base := nsel
+			nsel += len(tails) + 1 // ... and one plain path: fixed numbers, short strings, every field present
 			if nsel > 0 {
 				fmt.Fprintf(&body, "\tsel := verifChoice(\"symbolicLeaf\", %d)\n", nsel)
+			} else {
+				fmt.Fprintf(&body, "\tsel := 0\n")
 			}
 			if g.hasStr {
 				fmt.Fprintf(&body, "\tlong := sel == %d\n", g.leaves)
 			}
+			fmt.Fprintf(&body, "\ttail := 0\n")
+			if len(tails) > 0 {
+				fmt.Fprintf(&body, "\tif sel >= %d && sel < %d {\n\t\ttail = []int{%s}[sel-%d]\n\t}\n", base, base+len(tails), strings.Join(tails, ", "), base)
+			}
+			fmt.Fprintf(&body, "\t_, _ = tail, sel\n")
 			for _, d := range g.decls {
 				fmt.Fprintf(&body, "\t%s\n", d)
 			}
